@@ -8,7 +8,7 @@ from lib import gpgen
 from py2v import gen
 
 PROP = "C05"
-PROPS_FILES = ["Props/C05.v", "Props/C05_incumbent.v"]
+PROPS_FILES = ["Props/C05.v", "Props/C05_incumbent.v", "Props/C05_qei.v"]
 ASSUMPTIONS = [
   "real arithmetic (Coq R / Coquelicot); Phi := 1/2 + RInt pdf 0 z, so Phi' = pdf is proved; 0 < Phi < 1 and z*Phi(z) -> 0 at -infinity (Gaussian integral facts H_Phi_range, H_Phi_tail) are assumptions",
   "E[max(best - Y, 0)] is characterised through its derivative in the incumbent (= Phi(z) = P(Y <= best)); the improper integral itself is not formalised: the searcher compares with numerical quadrature",
@@ -126,11 +126,178 @@ def correspondence(ctx):
     seen.add(h)
   bad = C.run_cases("C05", "From Coq Require Import List QArith ZArith Bool.\nFrom LV Require Import Model.Incumbent.\nOpen Scope Q_scope.", "case", "check", cases)
   dis = [dict(what=f"C05 correspondence case {i} ({meta[i][0]}): batching / incumbent differs from Model.Incumbent", kind=meta[i][0], input=meta[i][1], observed=meta[i][2]) for i in bad]
-  return dict(evaluations=len(cases), distinct_nontrivial=nontriv,
+  qc = qei_correspondence(ctx)
+  dist.update(qc["distribution"])
+  dis += qc["disagreements"]
+  return dict(evaluations=len(cases) + qc["evaluations"], distinct_nontrivial=nontriv + qc["distinct"],
               rule="batched evaluation of a recording acquisition function (integer tags, batch sizes None/0/1/2/3/n/n+1/17, n in 0..9) and the incumbents of "
                    "ExpectedImprovement / AugmentedExpectedImprovement / ExpectedImprovementWithFailures on small GPs with dyadic tied values; non-trivial = at "
-                   "least two points; distinct by hash", samples=[dict(kind=m[0], input=m[1], impl=m[2]) for m in meta[:3] if m[0] == "batch"][:2],
+                   "least two points; distinct by hash; " + qc["rule"],
+              samples=[dict(kind=m[0], input=m[1], impl=m[2]) for m in meta[:3] if m[0] == "batch"][:2] + qc["samples"],
               distribution=dist, disagreements=dis)
+
+
+# ------------------------------------------------------------------------------------------ correspondence (Monte-Carlo parallel EI)
+
+QEI_HEADER = ("From Coq Require Import List QArith Bool Arith.\nFrom LV Require Import Model.ParallelEI Model.ParallelEICorr.\n"
+              "Open Scope Q_scope.")
+
+# (num_mc_iterations, num_mc_iterations_per_loop) whose executed number of draws is a power of two (the final division is then
+# exact in double arithmetic): single pass, several passes, and passes that overshoot num_mc_iterations (non-multiples)
+QEI_NB_EXACT = [(1, 1), (1, 3), (2, 1), (2, 2), (2, 5), (3, 2), (4, 1), (4, 2), (4, 4), (4, 9), (5, 4), (6, 4), (7, 4), (7, 2), (8, 2), (8, 4), (8, 8), (8, 1000)]
+# executed number not a power of two: the returned double is the correctly rounded quotient (checked as such inside Coq)
+QEI_NB_ROUNDED = [(3, 1), (3, 3), (3, 7), (5, 2), (5, 3), (5, 5), (6, 6), (7, 3), (4, 3), (6, 2), (9, 4), (7, 1000)]
+
+
+def gen_qei_case(rng):
+  """A stub posterior on distinct integer points: dyadic means (k/8), one dyadic lower-triangular factor (k/4, zeros on the
+  diagonal allowed) per union (candidate set ++ pending) with cov = L L' exactly, dyadic draws (k/4)."""
+  from fractions import Fraction as F
+  q, p, n, dim = rng.choice([1, 2, 3]), rng.choice([0, 1, 2]), rng.choice([1, 2, 3, 4]), rng.choice([1, 2])
+  c = q + p
+  pool = []
+  while len(pool) < 6 + p:
+    pt = [float(rng.randint(-5, 5)) for _ in range(dim)]
+    if pt not in pool:
+      pool.append(pt)
+  pending, pool = pool[:p], pool[p:]
+  sets = []
+  for _ in range(n):
+    if sets and rng.random() < 0.15:
+      sets.append([list(pt) for pt in rng.choice(sets)])           # the same candidate set twice in one call
+    else:
+      sets.append([list(rng.choice(pool)) for _ in range(q)])      # points shared between sets, repeated inside a set
+  means = [[pt, rng.randint(-16, 16) / 8.0] for pt in pool + pending]
+  factors, covs = [], []
+  for s in sets:
+    if any(f[0] == s for f in factors):
+      continue
+    while True:
+      L = [[(rng.randint(-8, 8) / 4.0 if j < i else rng.choice([0, 1, 2, 3, 4, 6]) / 4.0 if j == i else 0.0) for j in range(c)] for i in range(c)]
+      cov = [[float(sum(F(L[i][l]) * F(L[j][l]) for l in range(c))) for j in range(c)] for i in range(c)]
+      if cov not in covs:
+        break
+    covs.append(cov)
+    factors.append([s, L])
+  N, B = rng.choice(QEI_NB_EXACT) if rng.random() < 0.75 else rng.choice(QEI_NB_ROUNDED)
+  entry = rng.choice(["direct", "direct", "public"])
+  batch = rng.choice([None, 0, 1, 2, 3, n, n + 1]) if entry == "public" else None
+  bs = (batch or n) if entry == "public" else n
+  calls = -(-n // bs)
+  b = min(B, N)
+  need = calls * (-(-N // b)) * b * c
+  stream = [rng.randint(-12, 12) / 4.0 for _ in range(need + 2 * b * c + 3)]    # slack: a changed loop may ask for more
+  return dict(kind="qei", q=q, p=p, dim=dim, sets=sets, pending=pending, means=means, factors=factors, best=rng.randint(-16, 16) / 8.0,
+              N=N, B=B, entry=entry, batch=batch, as3d=bool(q > 1 or (entry == "direct" and rng.random() < 0.5)), stream=stream)
+
+
+def qei_tables(inp):
+  """per candidate set (means of its points, factor) and the pending means, as prescribed by the case"""
+  mean_of = {tuple(pt): m for pt, m in inp["means"]}
+  fac_of = {tuple(tuple(pt) for pt in s): L for s, L in inp["factors"]}
+  per_set = [([mean_of[tuple(pt)] for pt in s], fac_of[tuple(tuple(pt) for pt in s)]) for s in inp["sets"]]
+  return per_set, [mean_of[tuple(pt)] for pt in inp["pending"]]
+
+
+def run_qei_case(inp):
+  """The real ExpectedParallelImprovement on a stub predictor; compute_cholesky_for_gp_sampling (C17) and numpy.random.normal are
+  replaced inside this process for the duration of the call.  Returns the estimates and the size= arguments of the draws."""
+  from fractions import Fraction as F
+  import libsigopt.compute.expected_improvement as EI
+  from libsigopt.compute.predictor import Predictor
+  q, p, dim, c = inp["q"], inp["p"], inp["dim"], inp["q"] + inp["p"]
+  mean_of = {tuple(pt): m for pt, m in inp["means"]}
+  cov_of, fac_of = {}, {}
+  for s, L in inp["factors"]:
+    cov = numpy.array([[float(sum(F(L[i][l]) * F(L[j][l]) for l in range(c))) for j in range(c)] for i in range(c)], dtype=float).reshape(c, c)
+    cov_of[tuple(tuple(pt) for pt in s + inp["pending"])] = cov
+    fac_of[cov.tobytes()] = numpy.array(L, dtype=float).reshape(c, c)
+
+  class Stub(Predictor):
+    dim = inp["dim"]
+    differentiable = False
+    best_observed_value = inp["best"]
+    best_observed_location = numpy.zeros(inp["dim"])
+
+    def compute_mean_of_points(self, pts):
+      return numpy.array([mean_of[tuple(float(x) for x in pt)] for pt in numpy.asarray(pts)], dtype=float)
+
+    def compute_covariance_of_points(self, pts):
+      return numpy.copy(cov_of[tuple(tuple(float(x) for x in pt) for pt in numpy.asarray(pts))])
+
+  pos, sizes = [0], []
+
+  def normal(loc=0.0, scale=1.0, size=None):
+    sizes.append([int(s) for s in (size if isinstance(size, (tuple, list)) else [size])])
+    k = int(numpy.prod(size))
+    if loc != 0.0 or scale != 1.0 or pos[0] + k > len(inp["stream"]):
+      raise C.TieBroken("C05 qEI harness: numpy.random.normal asked for non-standard or more draws than scripted")
+    out = numpy.array(inp["stream"][pos[0]:pos[0] + k], dtype=float).reshape(size)
+    pos[0] += k
+    return out
+
+  def chol(cov):
+    return numpy.copy(fac_of[numpy.ascontiguousarray(cov, dtype=float).tobytes()])
+
+  pend = numpy.array(inp["pending"], dtype=float).reshape(p, dim)
+  pts = numpy.array(inp["sets"], dtype=float).reshape(len(inp["sets"]), q, dim)
+  if not inp["as3d"]:
+    pts = pts[:, 0, :]
+  old = EI.compute_cholesky_for_gp_sampling, numpy.random.normal
+  EI.compute_cholesky_for_gp_sampling, numpy.random.normal = chol, normal
+  try:
+    af = EI.ExpectedParallelImprovement(Stub(), q, points_being_sampled=pend if p else None, num_mc_iterations=inp["N"], num_mc_iterations_per_loop=inp["B"])
+    if inp["entry"] == "public":
+      out = af.evaluate_at_point_list(pts, batch_size=inp["batch"])
+    else:
+      out = af._evaluate_at_point_list(pts)
+  finally:
+    EI.compute_cholesky_for_gp_sampling, numpy.random.normal = old
+  out = [float(v) for v in numpy.asarray(out, dtype=float).ravel()]
+  return dict(out=out, blocks=sizes)
+
+
+def qei_case_term(inp, out):
+  per_set, mp = qei_tables(inp)
+  qv = lambda v: C.listlit(v, C.qlit)
+  sets = C.listlit([f"({qv(m)}, {C.listlit(L, qv)})" for m, L in per_set])
+  entry = "None" if inp["entry"] == "direct" else f"(Some {C.optlit(inp['batch'], C.nlit)})"
+  blocks = C.listlit([f"({C.nlit(b[0])}, {C.nlit(b[1])})" for b in out["blocks"]])
+  return (f"mkcase {C.nlit(inp['q'])} {sets} {qv(mp)} {C.qlit(inp['best'])} {C.nlit(inp['N'])} {C.nlit(inp['B'])} {entry} "
+          f"{qv(inp['stream'])} {blocks} {qv(out['out'])}")
+
+
+def qei_correspondence(ctx):
+  cases, meta, seen, dist, dis = [], [], set(), {}, []
+  for _ in range(ctx.n(150, 2000)):
+    inp = gen_qei_case(ctx.rng)
+    try:
+      out = run_qei_case(inp)
+      if any(len(b) != 2 for b in out["blocks"]) or not all(math.isfinite(v) for v in out["out"]):
+        raise ValueError(f"draws of shape {out['blocks']} / estimates {out['out']}")
+    except C.TieBroken:
+      raise
+    except Exception as e:
+      dis.append(dict(what=f"C05 qEI: implementation raised or returned unusable values: {type(e).__name__}: {e}", kind="qei", input=inp, observed=repr(e)))
+      continue
+    cases.append(qei_case_term(inp, out))
+    meta.append((inp, out))
+    b = min(inp["B"], inp["N"])
+    for t in (f"qei:q={inp['q']}", f"qei:p={inp['p']}", f"qei:sets={len(inp['sets'])}", f"qei:{inp['entry']}",
+              "qei:overshoot" if inp["N"] % b else "qei:multiple", "qei:several-passes" if inp["N"] > b else "qei:one-pass"):
+      dist[t] = dist.get(t, 0) + 1
+    if len(inp["sets"]) >= 2 and any(v > 0 for v in out["out"]):
+      seen.add(C.canon_hash(inp))
+  bad = C.run_cases("C05qei", QEI_HEADER, "case", "check", cases, shard=40)
+  for i in bad:
+    inp, out = meta[i]
+    dis.append(dict(what=f"C05 correspondence (Monte-Carlo parallel EI) case {i}: estimates of _evaluate_at_point_list differ from Model.ParallelEI "
+                         "or from the mean improvement of the sample minimum", kind="qei", input=inp, observed=out))
+  return dict(evaluations=len(cases), distinct=len(seen), distribution=dist, disagreements=dis,
+              rule="Monte-Carlo parallel EI: real ExpectedParallelImprovement on a stub predictor with prescribed dyadic means / covariances, prescribed "
+                   "dyadic factors and scripted dyadic draws, q in 1..3, p in 0..2, 1..4 candidate sets per call, block sizes dividing and not dividing "
+                   "num_mc_iterations, direct and public (batched) entry; non-trivial = at least two candidate sets and a positive estimate",
+              samples=[dict(kind="qei", input={k: v for k, v in i.items() if k != "stream"}, impl_output=o) for i, o in meta[:1]])
 
 
 # ------------------------------------------------------------------------------------------ independent oracle
@@ -162,6 +329,10 @@ def oracle(inp):
   from libsigopt.compute.probabilistic_failures import ProbabilisticFailures, ProbabilisticFailuresCDF, ProductOfListOfProbabilisticFailures
   def fail(what, observed, expected):
     return dict(signature=f"C05:{what}", what=what, input=inp, observed=observed, expected=expected, oracle="quadrature / closed form / Monte-Carlo band")
+  if inp.get("kind") == "qei":
+    return qei_oracle(inp)
+  if "gp" not in inp:     # a correspondence case of another kind (batching / incumbents): nothing to re-evaluate here
+    return None
   gi = inp["gp"]
   gp = gpgen.make_gp(gi)
   xs = numpy.array(gi["xs"], dtype=float)
@@ -305,8 +476,48 @@ def gen_input(rng, quick):
   return inp
 
 
+def qei_oracle(inp):
+  """Plain-Python exact restatement (fractions) of the property on a scripted run: the estimate of candidate set k is the mean, over
+  the draws z its call executed (the least multiple of the block size reaching num_mc_iterations), of max(0, best - min_j y_j),
+  y = m - L z, m = means of the set ++ pending means.  The returned double must be the correctly rounded value of that rational."""
+  from fractions import Fraction as F
+  try:
+    got = run_qei_case(inp)["out"]
+  except C.TieBroken:
+    raise
+  except Exception as e:
+    return dict(signature="C05:qei:raises", what=f"Monte-Carlo parallel EI raised {type(e).__name__} on a scripted posterior: {e}", input=inp,
+                observed=repr(e), expected="one estimate per candidate set", oracle="exact rational restatement")
+  per_set, mp = qei_tables(inp)
+  c, n = inp["q"] + inp["p"], len(inp["sets"])
+  b = min(inp["B"], inp["N"])
+  executed = -(-inp["N"] // b) * b
+  bs = (inp["batch"] or n) if inp["entry"] == "public" else n
+  want = []
+  for k, (mk, L) in enumerate(per_set):
+    off = (k // bs) * executed * c
+    m = [F(v) for v in mk + mp]
+    tot = F(0)
+    for i in range(executed):
+      z = [F(v) for v in inp["stream"][off + i * c: off + (i + 1) * c]]
+      y = [m[j] - sum(F(L[j][l]) * z[l] for l in range(c)) for j in range(c)]
+      tot += max(F(0), F(inp["best"]) - min(y))
+    want.append(float(tot / executed))
+  if len(got) != n or any(g != w for g, w in zip(got, want)):
+    return dict(signature="C05:qei:estimate is not the mean improvement of the sample minimum", input=inp, observed=got, expected=want,
+                what="Monte-Carlo parallel EI: an estimate is not the mean over the executed draws of max(0, best - min_j (m - L z)_j) for its own candidate set",
+                oracle="exact rational restatement on a scripted posterior (stub predictor, prescribed factor, scripted draws)")
+  return None
+
+
 def search(ctx, hints, broken):
   fails, n = [], 0
+  for h in hints:
+    if isinstance(h.get("input"), dict) and h["input"].get("kind") == "qei":
+      n += 1
+      r = oracle(h["input"])
+      if r and r["signature"] not in {f["signature"] for f in fails}:
+        fails.append(r)
   for _ in range(ctx.n(250, 4000) * (2 if broken else 1)):
     inp = gen_input(ctx.rng, ctx.quick())
     n += 1
@@ -320,7 +531,14 @@ def search(ctx, hints, broken):
       fails.append(r)
       if len(fails) >= 3:
         break
-  return dict(evaluations=n, failures=fails, oracle="Gauss-Legendre quadrature of E[max(best-Y,0)], closed-form probabilities, Monte-Carlo 6-sigma band")
+  for _ in range(ctx.n(60, 600)):
+    n += 1
+    r = oracle(gen_qei_case(ctx.rng))
+    if r:
+      if r["signature"] not in {f["signature"] for f in fails}:
+        fails.append(r)
+      break
+  return dict(evaluations=n, failures=fails, oracle="exact rational restatement of the scripted Monte-Carlo parallel EI; Gauss-Legendre quadrature of E[max(best-Y,0)], closed-form probabilities, Monte-Carlo 6-sigma band")
 
 
 def replay(ctx, payload):
